@@ -511,6 +511,7 @@ CO_ERR COSdoInitDownloadSegmented(CO_SDO *srv)
         srv->Seg.TBit = 0;
         srv->Seg.Num  = 0;
         srv->Seg.Dir  = 2;
+        srv->Seg.SInd = (width > 0) ? 1 : 0;
     }
     return (result);
 }
@@ -536,13 +537,19 @@ CO_ERR COSdoDownloadSegmented(CO_SDO *srv)
     }
 
     n = ((cmd >> 1) & 0x07);
-    if (n == 0) {
+    if ((n == 0) && (srv->Seg.SInd != 0)) {
+        /* indicated size is known: use remaining bytes */
         num = srv->Seg.Size - srv->Seg.Num;
         if (num > 7) {
             num = 7;
         }
     } else {
         num = 7 - n;
+    }
+    if (num > (srv->Seg.Size - srv->Seg.Num)) {
+        /* more data than the object (or the indicated size) holds */
+        COSdoAbort(srv, CO_SDO_ERR_LEN_HIGH);
+        return (CO_ERR_SDO_ABORT);
     }
 
     bid = 1;
